@@ -34,10 +34,21 @@ def slash_number_currency_hazard(v: core.Violation, sess: Any, op: Optional[dict
     """'/' NUMBER CURRENCY written without any blank: lexes as a slash-currency ('/0.5USD')."""
     if sess is None:
         return False
+    import re
+    body = re.compile(r"[A-Z0-9'._-]+")
     toks = [t for t in sess.root.token_store if t.raw_text]
-    for a, b, c in zip(toks, toks[1:], toks[2:]):
-        if type(a).__name__ == 'MulOp' and a.raw_text == '/' and isinstance(b, models.Number) and isinstance(c, models.Currency):
-            return True
+    for i, a in enumerate(toks):
+        if type(a).__name__ == 'MulOp' and a.raw_text == '/':
+            # everything written without a blank from the '/' up to a currency, all of it currency characters
+            text = ''
+            for t in toks[i + 1:i + 12]:
+                if isinstance(t, (models.Whitespace, models.Newline)):
+                    break
+                text += t.raw_text
+                if not body.fullmatch(text):
+                    break
+                if isinstance(t, models.Currency):
+                    return True
     return False
 
 
